@@ -12,7 +12,7 @@ UNKNOWN = ["REM x", 'PERFORMER "p"', "FLAGS DCP", "PREGAP 00:02:00", "ISRC X", "
            "rem x", 'Performer "p"', "flags dcp", 'Rem file "z" binary', "catalog 1", 'songwriter "s"', "Xyzzy 1 2 3",
            # one-word lines (a keyword without arguments) and punctuation only
            "REM", "rem", "FLAGS", "X", ";", '"']
-PADS = ["lead", "trail", "tab", "cr"]
+PADS = ["lead", "trail", "tab", "cr", "lead1k", "trail5k", "tab2k"]      # (the last three: 1100 / 5000 blanks, 2000 tabs)
 
 
 def mix(word, how):
@@ -62,7 +62,8 @@ def render(model, recs, case=(0, 0, 0, 0)):
 
 
 def pad_line(s, how):
-    return {"lead": "      " + s, "trail": s + "    ", "tab": "\t\t" + s.strip() + "\t", "cr": s + "\r"}[how]
+    return {"lead": "      " + s, "trail": s + "    ", "tab": "\t\t" + s.strip() + "\t", "cr": s + "\r",
+            "lead1k": " " * 1100 + s, "trail5k": s + " " * 5000, "tab2k": "\t" * 2000 + s.strip() + "\t" * 2000}[how]
 
 
 def apply(model, recs, tf):
@@ -222,7 +223,7 @@ class Check(CheckBase):
     level = "exploration"
     title = "Cue sheets are read the same regardless of case, spacing and unknown lines"
     rule = ("24 canonical sheets (tracks 1..3 x INDEX lines {1,2} x TITLE {y,n} x {all AUDIO, first track data}) x all "
-            "single transformations: 80 keyword-case combinations (3^4-1), padding {leading, trailing, tabs, CR} uniform "
+            "single transformations: 80 keyword-case combinations (3^4-1), padding {leading, trailing, tabs, CR, 1100 leading blanks, 5000 trailing blanks, 2000 tabs on both sides} uniform "
             "and on each single line, each of 24 blank/unknown lines (upper, lower and mixed case, one with an unheard-of keyword, six of ONE word or punctuation only) at every admissible position (before FILE, anywhere "
             "after the first TRACK line; blank lines also between FILE and the first TRACK); x line ending {LF, CRLF}; all PAIRS of single transformations (quick: sheets "
             "with <=2 tracks and every 5th pair; thorough: all); structure compared with the model; image-level (real "
